@@ -291,6 +291,11 @@ func (c04) Run(sc *Scenario) *Verdict {
 	}
 	const ucap = 3000
 	u := weff.Unfolding(start, false, ucap)
+	// a fault on the root URL only hits references that name the root by URL: fragment-only
+	// references still see the intact in-memory root, so the fault-free unfolding bounds those
+	if u0 := w.Unfolding(start, false, ucap); u0 > u {
+		u = u0
+	}
 	if u >= ucap {
 		v.Inconclusive = "unfolding larger than the cap: no budget to hold the call to"
 		return v
